@@ -61,6 +61,7 @@ where
       let s_next = s.clone();
       let s_error = s.clone();
       let s_complete = s.clone();
+      let s_replayed = s.clone();
 
       *sbsc.write().unwrap() = Some(
         utils::ready_set_go(
@@ -90,6 +91,13 @@ where
           },
         ),
       );
+      // the replay may already have handed over the stored terminal: the
+      // registration with the live subject is then of no use any more
+      if !s_replayed.is_subscribed() {
+        if let Some(sbsc) = &*sbsc.read().unwrap() {
+          sbsc.unsubscribe();
+        }
+      }
     })
   }
 
